@@ -1,6 +1,8 @@
 open Datatypes
 open Nat0
 
+val hd : 'a1 -> 'a1 list -> 'a1
+
 val tl : 'a1 list -> 'a1 list
 
 val nth : nat -> 'a1 list -> 'a1 -> 'a1
